@@ -12,8 +12,10 @@ import time
 
 ROOT = os.path.dirname(os.path.dirname(os.path.abspath(__file__)))
 REPO = os.environ.get("VERIF_REPO", "/repo")
-EVIDENCE_DIR = os.path.join(ROOT, "evidence")
-REPLAY_DIR = os.path.join(ROOT, "replay")
+# development runs against a scratch copy (VERIF_REPO=...) must not overwrite the evidence of /repo
+_SCRATCH = os.path.realpath(REPO) != "/repo"
+EVIDENCE_DIR = os.path.join(ROOT, "evidence") if not _SCRATCH else "/var/tmp/vv_scratch_evidence"
+REPLAY_DIR = os.path.join(ROOT, "replay") if not _SCRATCH else "/var/tmp/vv_scratch_replay"
 KNOWN = os.path.join(ROOT, "known_findings.json")
 
 EXIT_OK, EXIT_VIOLATION, EXIT_UNDECIDED, EXIT_ERROR = 0, 1, 2, 3
